@@ -378,7 +378,7 @@ theorem lookup_mkIds_some : ∀ (l : List AccId) (n : Nat) (a : AccId), a ∈ l 
   | b :: r, n, a, h => by
     by_cases hab : a = b
     · subst hab
-      exact ⟨n, by simp [mkIds, List.lookup], Nat.le_refl _, by simp⟩
+      exact ⟨n, by simp [mkIds], Nat.le_refl _, by simp⟩
     · have hb : (a == b) = false := by simpa using hab
       have hr : a ∈ r := by
         rcases List.mem_cons.mp h with h | h
